@@ -182,7 +182,7 @@ func TestC05Seq(t *testing.T) {
 		base := g.Actions(func(t *rapid.T, err error) { cut = true })
 		acts := map[string]func(*rapid.T){}
 		for _, k := range []string{"create", "create2", "mkdir", "write", "write2", "write3", "symlink", "setattr", "setattr2", "read",
-			"remove", "rmdir", "rename", "rename2", "restart"} {
+			"remove", "rmdir", "rename", "rename2", "movedir", "restart"} {
 			acts[k] = base[k]
 		}
 		ninterrupt, ndense := 0, 0
